@@ -149,8 +149,11 @@ static kdump_ctx_t *setup(const char *variant)
 	if (!ctx) return NULL;
 	if (variant[0] == 'F')
 		return ctx;
-	if (variant[0] == 'B') {
+	if (variant[0] == 'B' || variant[0] == 'X') {
 		int n = atoi(variant + 1), i;
+		/* "X<n>": the attributes are created through a KDUMP_CLONE_XLAT clone, which is
+		 * freed before the history starts */
+		kdump_ctx_t *via = variant[0] == 'X' ? kdump_clone(ctx, KDUMP_CLONE_XLAT) : ctx;
 		char *txt = malloc(24 * (size_t) n + 1), *q = txt;
 		kdump_blob_t *b;
 		for (i = 0; i < n; ++i) q += sprintf(q, "K%d=v%d\n", i, i);
@@ -158,7 +161,11 @@ static kdump_ctx_t *setup(const char *variant)
 		free(txt);
 		a.type = KDUMP_BLOB;
 		a.val.blob = b;
-		kdump_set_attr(ctx, "linux.vmcoreinfo.raw", &a);
+		kdump_set_attr(via, "linux.vmcoreinfo.raw", &a);
+		if (via != ctx) {
+			kdump_set_number_attr(via, "file.set.number", 3);
+			kdump_free(via);
+		}
 		return ctx;
 	}
 	kdump_set_number_attr(ctx, "file.set.number", 2);
@@ -177,7 +184,7 @@ static kdump_ctx_t *setup(const char *variant)
 static int is_variant(const char *t)
 {
 	return (t[0] == 'P' || t[0] == 'F') ? t[1] == 0
-		: (t[0] == 'B' && t[1] >= '0' && t[1] <= '9');
+		: ((t[0] == 'B' || t[0] == 'X') && t[1] >= '0' && t[1] <= '9');
 }
 
 /* ---- white-box dump of the whole dictionary ---- */
@@ -252,6 +259,7 @@ static void run_case(char **ops, int nops)
 	int refset[MAXSLOT] = { 0 };
 	kdump_attr_iter_t iter[MAXSLOT];
 	int iterset[MAXSLOT] = { 0 };
+	char *iterdir[MAXSLOT] = { 0 };		/* path of the directory, if started by path */
 	int nctx = 1, i, first = 0;
 	const char *variant = "P";
 
@@ -323,11 +331,17 @@ static void run_case(char **ops, int nops)
 			kdump_ctx_t *c = CTX(1);
 			int is = SLOT(2);
 			if (!c) { printf("BAD"); continue; }
-			if (f[0][1] == 0)
-				st = kdump_attr_iter_start(c, keystr(f[3], &t1), &iter[is]);
-			else if (f[0][1] == 'R') {
+			if (f[0][1] == 0) {
+				char *k = keystr(f[3], &t1);
+				st = kdump_attr_iter_start(c, k, &iter[is]);
+				free(iterdir[is]);
+				iterdir[is] = strdup(k ? k : "");
+				if (k && *k == '.') memmove(iterdir[is], iterdir[is] + 1, strlen(iterdir[is]));
+			} else if (f[0][1] == 'R') {
 				if (!refset[SLOT(3)]) { printf("BAD"); continue; }
 				st = kdump_attr_ref_iter_start(c, &ref[SLOT(3)], &iter[is]);
+				free(iterdir[is]);
+				iterdir[is] = NULL;
 			} else {
 				if (!iterset[is]) { printf("NOITER"); continue; }
 				st = kdump_attr_iter_next(c, &iter[is]);
@@ -342,6 +356,25 @@ static void run_case(char **ops, int nops)
 				st = kdump_attr_ref_get(c, &iter[is].pos, &a);
 				pget(st, &a);
 			}
+		} else if ((!strcmp(f[0], "IS") || !strcmp(f[0], "IK")) && nf == 5) {
+			/* set or clear the attribute the iterator stands on */
+			kdump_ctx_t *c = CTX(1);
+			int is = SLOT(2);
+			if (!c) { printf("BAD"); continue; }
+			if (!iterset[is] || !iter[is].key) { printf("NOITER"); continue; }
+			if (mkattr(&a, f[3], f[4], &t2)) { printf("BAD"); continue; }
+			if (f[0][1] == 'S')
+				st = kdump_attr_ref_set(c, &iter[is].pos, &a);
+			else {
+				char *path;
+				if (!iterdir[is]) { printf("BAD"); continue; }
+				path = malloc(strlen(iterdir[is]) + strlen(iter[is].key) + 2);
+				sprintf(path, "%s%s%s", iterdir[is], *iterdir[is] ? "." : "", iter[is].key);
+				st = kdump_set_attr(c, path, &a);
+				free(path);
+			}
+			after_set(st, &a);
+			printf("%d", (int) st);
 		} else if (!strcmp(f[0], "C") && nf == 3) {
 			kdump_ctx_t *c = CTX(1);
 			if (!c || nctx >= MAXCTX) { printf("BAD"); continue; }
@@ -354,11 +387,13 @@ static void run_case(char **ops, int nops)
 			kdump_free(ctx[ci]);
 			ctx[ci] = NULL;
 			printf("0");
-		} else if (!strcmp(f[0], "O") && nf == 2) {
-			/* re-open: continue in a child so that a corrupted lock cannot hang the run */
+		} else if (!strcmp(f[0], "O") && (nf == 2 || nf == 3)) {
+			/* re-open (through context f[2], default 0): continue in a child so that a
+			 * corrupted lock cannot hang the run */
 			int fi = atoi(f[1]), fd, wst;
 			pid_t pid;
-			if (fi < 0 || fi >= nfiles) { printf("BAD"); continue; }
+			kdump_ctx_t *oc = nf == 3 ? CTX(2) : ctx[0];
+			if (fi < 0 || fi >= nfiles || !oc) { printf("BAD"); continue; }
 			fflush(stdout);
 			pid = forked ? 0 : fork();
 			if (pid > 0) {
@@ -371,7 +406,7 @@ static void run_case(char **ops, int nops)
 			forked = 1;
 			alarm(3);
 			fd = open(files[fi], O_RDONLY);
-			st = kdump_set_number_attr(ctx[0], "file.fd", fd);
+			st = kdump_set_number_attr(oc, "file.fd", fd);
 			printf("O%d{", (int) st);
 			dump_all(ctx[0]);
 			putchar('}');
@@ -387,6 +422,8 @@ static void run_case(char **ops, int nops)
 	}
 	for (i = MAXCTX - 1; i >= 0; --i)
 		if (ctx[i]) kdump_free(ctx[i]);
+	for (i = 0; i < MAXSLOT; ++i)
+		free(iterdir[i]);
 }
 
 int main(int argc, char **argv)
